@@ -352,7 +352,7 @@ def _xfilter(accumulator, test_range, condition, operating_range):
                 break
         if operator in ('=', '<>'):
             it = _re_condition.findall(condition)
-            if it:
+            if it and condition.upper() not in Error.errors:  # Not `#NAME?`.
                 _ = lambda v: re.escape(v.replace('~?', '?').replace('~*', '*'))
                 match = re.compile(''.join(sum(zip(
                     map(_, _re_condition.split(condition)),
@@ -370,7 +370,7 @@ def _xfilter(accumulator, test_range, condition, operating_range):
                     return ex.err
             elif any(v in condition for v in ('~?', '~*')):
                 condition = condition.replace('~?', '?').replace('~*', '*')
-        from ..tokens.operand import Number, Error
+        from ..tokens.operand import Number
         from ..errors import TokenError
         for token in (Number, Error):
             try:
